@@ -94,6 +94,12 @@ def run(ctx, prefixes):
         # cannot be written), pings and opens its windows
         {"h": [act("headers", 1), act("headers", 3), act("data", 1, 40000), act("data", 1, 40000, es=True), act("close_full"), act("brst", 1), act("brst", 3),
                act("brst", 1), act("bping"), act("ctl", 0, t="WU", v=65535), act("ctl", 1, t="WU", v=65535), act("bping"), act("brst", 3), act("bping")]},
+        # (found by the thorough tier) the sender is gone with DATA waiting for the connection window; the receiver pings,
+        # resets another stream and then opens the windows
+        {"h": [act("ctl", 3, t="WU", v=1000), act("data", 3, 20000, pad=7, es=True), act("headers", 3), act("rst", 1, n=2), act("data", 3, 1, pad=7, es=True),
+               act("data", 3, 16384, pad=7, es=True), act("rst", 1, n=2), act("data", 3, 1, pad=7, es=True), act("data", 1, 40000, es=True),
+               act("ctl", 3, t="WU", v=65535), act("close_full"), act("bping"), act("brst", 1), act("ctl", 0, t="WU", v=65535), act("ctl", 3, t="WU", v=65535)],
+         "dir": "s2c"},
         # a PUSH_PROMISE whose header block is completed by a CONTINUATION frame, then the response
         {"h": [act("headers", 1), act("push_open", 1, n=2), act("cont", 1), act("headers", 1, es=True)], "dir": "s2c"},
         {"h": [act("headers", 3), act("data", 3, 100), act("push_open", 3, n=4), act("cont", 3), act("data", 3, 100, es=True)], "dir": "s2c"},
